@@ -333,6 +333,8 @@ def g_case(rng, tier, kind=None):
     case["preread"] = [n for n in all_glyphs if rng.random() < 0.3] if via != "api" else []
     if via != "api" and rng.random() < 0.25:
         case["preread"] = list(all_glyphs)
+    if via == "ufo3" and font["images"] and rng.random() < 0.5:
+        case["odd_image_name"] = True
     case["history"] = [[rng.choice(HISTORY_OPS), rng.randrange(1000)] for _ in range(rng.choice([0, 0, 0, 1, 2, 4]))]
     if kind is None:
         kind = rng.choice([k for k, _, _ in KINDS] + ["font", "font", "glyph", "glyph", "layer"])
@@ -613,6 +615,7 @@ class Built(object):
         self.tmp = None
         self.keep = []
         self.save_error = None
+        self.odd_image = False
         fd = case["font"]
         via = case["via"]
         if via == "ufo2":
@@ -633,12 +636,33 @@ class Built(object):
             except Exception as e:
                 saved = False
                 self.save_error = "%s: %s" % (type(e).__name__, e)
+            if saved and case.get("odd_image_name"):
+                # a UFO written by another tool: an image file whose name defcon itself would not have chosen
+                imgdir = os.path.join(path, "images")
+                names = sorted(os.listdir(imgdir)) if os.path.isdir(imgdir) else []
+                if names:
+                    os.rename(os.path.join(imgdir, names[0]), os.path.join(imgdir, "Odd Name.png"))
+                    self.odd_image = True
             if saved:
                 self.save_error = _readable(path)
                 saved = self.save_error is None
-            from defcon import Font
-            f = Font(path) if saved else build_font(fd)
-            for n in (case.get("preread", []) if saved else []):
+            self.font = self._open(path if saved else None, fd, case)
+            self.twin = self._open(path if saved else None, fd, case)
+        else:
+            apply_history(f, case.get("history", []))
+            self.font = f
+            self.twin = self._open(None, fd, case)
+
+    @staticmethod
+    def _open(path, fd, case):
+        """one instance of the original: opened from the saved UFO (or built again through the API), pre-read as the
+        case says, temp libs applied, then edited.  Two instances made this way are in the same state, including
+        which glyphs are loaded and how: the harness describes the original to the model from the TWIN, so that
+        the original itself is untouched when it is serialized."""
+        from defcon import Font
+        f = Font(path) if path is not None else build_font(fd)
+        if path is not None:
+            for n in case.get("preread", []):
                 for layer in f.layers:
                     if n in layer:
                         len(layer[n])      # full load of the contours
@@ -649,13 +673,14 @@ class Built(object):
                 if ld["name"] in f.layers and ld["tempLib"]:
                     f.layers[ld["name"]].tempLib.update(dec(ld["tempLib"]))
         apply_history(f, case.get("history", []))
-        self.font = f
+        return f
 
     def close(self):
-        try:
-            self.font.close()
-        except Exception:
-            pass
+        for f in (self.font, self.twin):
+            try:
+                f.close()
+            except Exception:
+                pass
         if self.tmp:
             shutil.rmtree(self.tmp, ignore_errors=True)
 
@@ -1276,10 +1301,14 @@ def run_impl(case):
         st("via." + case["via"])
         if built.save_error:
             st("via.save-failed-fell-back-to-api")
+        if built.odd_image:
+            st("via.ufo3.odd-image-file-name")
         st("history.%d" % min(3, len(case.get("history", []))))
-        # ---- 1. model input: the original as it is now (nothing below may change its load state before
-        #         the serializations are taken)
-        struct = sexp.dumps(struct_of(kind, orig))
+        # ---- 1. model input: the original as it is now, described from its twin (an identically made second
+        #         instance) so that nothing touches the original before its serializations are taken
+        twin = pick_object(built.twin, case["pick"])
+        keep.append(twin)
+        struct = sexp.dumps(struct_of(kind, twin))
         _cache_put(case, struct)
         # ---- 2. every serialization the ops need, taken from the original in this state
         feeds = []
@@ -1462,8 +1491,8 @@ def _struct_for(case):
         return open(path).read()
     built = Built(case)
     try:
-        orig = pick_object(built.font, case["pick"])
-        return sexp.dumps(struct_of(case["pick"]["kind"], orig))
+        twin = pick_object(built.twin, case["pick"])
+        return sexp.dumps(struct_of(case["pick"]["kind"], twin))
     finally:
         built.close()
 
